@@ -197,6 +197,9 @@ def run(rep, tier, seed, keep=False):
             add(g.bn('+', X, g.mp((g.c('a'), g.c(3)), (g.c('n'), g.c(4)))), d)
             add(g.attr(X, 'a'), d)
             add(g.idx(X, g.c('a')), d)
+            for key in ('a', 'b', 'zz', 1):
+                for dflt in (g.c(9), g.c(None), g.lst()):
+                    add(g.idx2(X, g.c(key), dflt), d)
         for s in SETS:
             for (f, args) in set_ops():
                 add(g.mcall(X, f, *args), s)
